@@ -402,3 +402,85 @@ def run_sumwrap(prog, ctx=None):
             res.ob("%s:%s" % (f.qn, norm(show(n, f))[:60]), ok, f, n.get("l") or f.line,
                    "" if ok else "the sum in `%s` can wrap (operands %s and %s): a length near SIZE_MAX passes the limit test" % (norm(show(n, f)), va, vb))
     return res
+
+
+def run_sentineluse(prog, ctx=None):
+    """SENTINELUSE: a narrow member that its module stores as `M = (v > MAX) ? 0 : v` holds a cache of v with 0 standing for
+    "does not fit, work it out again".  The files that contain such stores know the encoding; a function of another file
+    that uses M as a number (an argument, an operand of arithmetic) takes 0 for the real value whenever v did not fit: a
+    name of 256 bytes or more becomes an empty name.  Outside the storing files M is only compared or assigned."""
+    res = Result("SENTINELUSE")
+    producers = {}      # (record, member) -> set of files
+    for f in prog.functions.values():
+        if f.nocfg:
+            continue
+        for b, i, n in f.walk_all():
+            if not (n.get("k") == "bin" and n.get("op") == "="):
+                continue
+            l = strip(n["a"], lvalue_to_rvalue=False)
+            r = strip(n["b"], all_casts=True)
+            if l.get("k") != "mem" or r.get("k") != "cond":
+                continue
+            c = strip(r["c"], all_casts=True)
+            arms = [strip(r["a"], all_casts=True), strip(r["b"], all_casts=True)]
+            if not (c.get("k") == "bin" and c.get("op") in (">", ">=") and cval(c["b"]) is not None):
+                continue
+            if cval(arms[0]) != 0 or cval(arms[1]) is not None:
+                continue
+            if norm(show(strip(c["a"], all_casts=True), f)) != norm(show(arms[1], f)):
+                continue
+            LT = f.T(l.get("t"))
+            if LT.get("k") == "int" and LT.get("bits", 64) <= 16:
+                producers.setdefault((l.get("rec", ""), l.get("f")), set()).add(f.file)
+    if not producers:
+        raise Broken("SENTINELUSE: no saturating member store found")
+    files = set(ctx.get("files", [])) if ctx and ctx.get("files") else None
+    for f in sorted(prog.functions.values(), key=lambda f: (f.file, f.line, f.qn)):
+        if f.nocfg or f.file.startswith("examples/"):
+            continue
+        done = set()
+        k = 0
+        for b, i, e in f.elements():
+            uses = []
+
+            def visit(n, parent, role):
+                if not isinstance(n, dict):
+                    return
+                if n.get("k") == "mem" and (n.get("rec", ""), n.get("f")) in producers and f.file not in producers[(n.get("rec", ""), n.get("f"))]:
+                    uses.append((n, parent, role))
+                for ch in children(n):
+                    visit(ch, n, None)
+            visit(e, None, None)
+            for n, parent, _ in uses:
+                if id(n) in done:
+                    continue
+                done.add(id(n))
+                # climb over casts to the first real user
+                par = {}
+                for m in walk(e):
+                    for ch in children(m):
+                        if isinstance(ch, dict):
+                            par[id(ch)] = m
+                user = par.get(id(n))
+                while user is not None and user.get("k") == "cast":
+                    user = par.get(id(user))
+                if user is None:
+                    continue
+                kind = user.get("k")
+                numeric = False
+                if kind == "call" and any(strip(a, all_casts=True) is n or a is n for a in user.get("args", [])):
+                    numeric = True
+                if kind == "bin" and user.get("op") in ("+", "-", "*", "/", "%", "<<", ">>"):
+                    numeric = True
+                if kind == "bin" and user.get("op") == "=" and strip(user["a"], lvalue_to_rvalue=False) is n:
+                    continue      # a store
+                if kind == "bin" and user.get("op") in ("==", "!=", "<", "<=", ">", ">=", "&&", "||") or kind == "un" and user.get("op") == "!":
+                    numeric = False
+                sig = (n.get("l"), n.get("c"), norm(show(user, f))[:80])      # the CFG lists a sub-expression again inside its parent element
+                if sig in done:
+                    continue
+                done.add(sig)
+                k += 1
+                res.ob("%s:%s in `%s`" % (f.qn, norm(show(n, f)), norm(show(user, f))[:50]), not numeric, f, n.get("l") or f.line,
+                       "" if not numeric else "`%s` is used as a number in %s; its module stores it as (v > MAX) ? 0 : v, so a value that does not fit reads as 0 here (a long name becomes an empty one)" % (norm(show(n, f)), f.qn))
+    return res
